@@ -27,16 +27,22 @@ func hmKind(u *universe) *mapKind {
 	c := func(o vm.HashRecord) *vm.HashMapOfValue { return o.(*vm.HashMapOfValue) }
 	return &mapKind{
 		name: "HashMapOfValue", u: u, mutableCopy: true,
-		fresh:      func(capacity int) vm.HashRecord { return vm.NewHashMapOfValue(capacity) },
-		del:        func(o vm.HashRecord, k value.Value) (bool, value.Value) { return vm.HashMapOfValueDelete(th, c(o), k) },
-		getFn:      func(o vm.HashRecord, k value.Value) (value.Value, value.Value) { return vm.HashMapOfValueGet(th, c(o), k) },
-		hasKeyFn:   func(o vm.HashRecord, k value.Value) (bool, value.Value) { return vm.HashMapOfValueContainsKey(th, c(o), k) },
+		fresh: func(capacity int) vm.HashRecord { return vm.NewHashMapOfValue(capacity) },
+		del:   func(o vm.HashRecord, k value.Value) (bool, value.Value) { return vm.HashMapOfValueDelete(th, c(o), k) },
+		getFn: func(o vm.HashRecord, k value.Value) (value.Value, value.Value) {
+			return vm.HashMapOfValueGet(th, c(o), k)
+		},
+		hasKeyFn: func(o vm.HashRecord, k value.Value) (bool, value.Value) {
+			return vm.HashMapOfValueContainsKey(th, c(o), k)
+		},
 		containsFn: func(o vm.HashRecord, p value.Pair) (bool, value.Value) { return vm.HashMapOfValueContains(th, c(o), p) },
-		hasValFn:   func(o vm.HashRecord, v value.Value) (bool, value.Value) { return vm.HashMapOfValueContainsValue(th, c(o), v) },
-		setCap:     func(o vm.HashRecord, n int) value.Value { return vm.HashMapOfValueSetCapacity(th, c(o), n) },
-		grow:       func(o vm.HashRecord, n int) value.Value { return vm.HashMapOfValueGrow(th, c(o), n) },
-		copyFrom:   func(dst, src vm.HashRecord) value.Value { return vm.HashMapOfValueCopy(th, c(dst), c(src)) },
-		copyTable:  func(dst, src vm.HashRecord) value.Value { return vm.HashMapOfValueCopyTable(th, c(dst), c(src).Table) },
+		hasValFn: func(o vm.HashRecord, v value.Value) (bool, value.Value) {
+			return vm.HashMapOfValueContainsValue(th, c(o), v)
+		},
+		setCap:    func(o vm.HashRecord, n int) value.Value { return vm.HashMapOfValueSetCapacity(th, c(o), n) },
+		grow:      func(o vm.HashRecord, n int) value.Value { return vm.HashMapOfValueGrow(th, c(o), n) },
+		copyFrom:  func(dst, src vm.HashRecord) value.Value { return vm.HashMapOfValueCopy(th, c(dst), c(src)) },
+		copyTable: func(dst, src vm.HashRecord) value.Value { return vm.HashMapOfValueCopyTable(th, c(dst), c(src).Table) },
 		concatFn: func(a, b vm.HashRecord) (vm.HashRecord, value.Value) {
 			r, err := vm.HashMapOfValueConcat(th, c(a), c(b))
 			return r, err
@@ -54,16 +60,28 @@ func hrKind(u *universe) *mapKind {
 	c := func(o vm.HashRecord) *vm.HashRecordOfValue { return o.(*vm.HashRecordOfValue) }
 	return &mapKind{
 		name: "HashRecordOfValue", u: u,
-		fresh:      func(capacity int) vm.HashRecord { return vm.NewHashRecordOfValue(capacity) },
-		del:        func(o vm.HashRecord, k value.Value) (bool, value.Value) { return vm.HashRecordOfValueDelete(th, c(o), k) },
-		getFn:      func(o vm.HashRecord, k value.Value) (value.Value, value.Value) { return vm.HashRecordOfValueGet(th, c(o), k) },
-		hasKeyFn:   func(o vm.HashRecord, k value.Value) (bool, value.Value) { return vm.HashRecordOfValueContainsKey(th, c(o), k) },
-		containsFn: func(o vm.HashRecord, p value.Pair) (bool, value.Value) { return vm.HashRecordOfValueContains(th, c(o), p) },
-		hasValFn:   func(o vm.HashRecord, v value.Value) (bool, value.Value) { return vm.HashRecordOfValueContainsValue(th, c(o), v) },
-		setCap:     func(o vm.HashRecord, n int) value.Value { return vm.HashRecordOfValueSetCapacity(th, c(o), n) },
-		grow:       func(o vm.HashRecord, n int) value.Value { return vm.HashRecordOfValueGrow(th, c(o), n) },
-		copyFrom:   func(dst, src vm.HashRecord) value.Value { return vm.HashRecordOfValueCopy(th, c(dst), c(src)) },
-		copyTable:  func(dst, src vm.HashRecord) value.Value { return vm.HashRecordOfValueCopyTable(th, c(dst), c(src).Table) },
+		fresh: func(capacity int) vm.HashRecord { return vm.NewHashRecordOfValue(capacity) },
+		del: func(o vm.HashRecord, k value.Value) (bool, value.Value) {
+			return vm.HashRecordOfValueDelete(th, c(o), k)
+		},
+		getFn: func(o vm.HashRecord, k value.Value) (value.Value, value.Value) {
+			return vm.HashRecordOfValueGet(th, c(o), k)
+		},
+		hasKeyFn: func(o vm.HashRecord, k value.Value) (bool, value.Value) {
+			return vm.HashRecordOfValueContainsKey(th, c(o), k)
+		},
+		containsFn: func(o vm.HashRecord, p value.Pair) (bool, value.Value) {
+			return vm.HashRecordOfValueContains(th, c(o), p)
+		},
+		hasValFn: func(o vm.HashRecord, v value.Value) (bool, value.Value) {
+			return vm.HashRecordOfValueContainsValue(th, c(o), v)
+		},
+		setCap:   func(o vm.HashRecord, n int) value.Value { return vm.HashRecordOfValueSetCapacity(th, c(o), n) },
+		grow:     func(o vm.HashRecord, n int) value.Value { return vm.HashRecordOfValueGrow(th, c(o), n) },
+		copyFrom: func(dst, src vm.HashRecord) value.Value { return vm.HashRecordOfValueCopy(th, c(dst), c(src)) },
+		copyTable: func(dst, src vm.HashRecord) value.Value {
+			return vm.HashRecordOfValueCopyTable(th, c(dst), c(src).Table)
+		},
 		concatFn: func(a, b vm.HashRecord) (vm.HashRecord, value.Value) {
 			r, err := vm.HashRecordOfValueConcat(th, c(a), c(b))
 			return r, err
